@@ -7,6 +7,7 @@ import (
 	"fmt"
 	"io"
 	"math/rand"
+	"os"
 	"reflect"
 	"runtime"
 	"sort"
@@ -16,6 +17,7 @@ import (
 	"testing/synctest"
 	"time"
 
+	"github.com/mattn/go-runewidth"
 	"github.com/vbauerster/mpb/v8"
 	"github.com/vbauerster/mpb/v8/decor"
 )
@@ -208,6 +210,16 @@ func (r *run) hook(point string, args ...interface{}) {
 	r.parked = append(r.parked, g)
 	r.mu.Unlock()
 	<-g.rel
+	if strings.HasPrefix(label, "pw:cancel") {
+		// Wait or Shutdown is about to cancel the container: calls still in flight may
+		// from now on take their "container is done" branch
+		r.rec(Event{"ev": "closing"})
+	}
+	if label == "ct:hm:sync" {
+		// a render cycle begins: every Add that returned before this point is in the
+		// heap manager's queue ahead of the cycle's sync request
+		r.rec(Event{"ev": "cycle"})
+	}
 }
 
 // ---------------------------------------------------------------- output recording
@@ -255,6 +267,7 @@ type probeDecor struct {
 	idx   int
 	spec  DecorSpec
 	calls int
+	col   int // ordinal among the synchronised decorators of its side, -1 if not synchronised
 }
 
 func (d *probeDecor) Decor(s decor.Statistics) (string, int) {
@@ -267,9 +280,16 @@ func (d *probeDecor) Decor(s decor.Statistics) (string, int) {
 }
 
 func (d *probeDecor) Format(s string) (string, int) {
-	d.r.rec(Event{"ev": "fmt", "d": d.name, "b": d.bar, "side": d.side, "idx": d.idx, "s": s, "sync": d.spec.Sync})
+	// the width this decorator needs, as the documentation of WC states it
+	need := runewidth.StringWidth(s)
+	if d.spec.W > need {
+		need = d.spec.W
+	} else if d.spec.Space {
+		need++
+	}
 	str, w := d.WC.Format(s)
-	d.r.rec(Event{"ev": "fmtret", "d": d.name, "b": d.bar, "side": d.side, "idx": d.idx, "got": w, "sync": d.spec.Sync})
+	d.r.rec(Event{"ev": "fmtret", "d": d.name, "b": d.bar, "side": d.side, "idx": d.idx, "col": d.col, "need": need, "got": w,
+		"sync": d.spec.Sync, "strw": runewidth.StringWidth(str)})
 	return str, w
 }
 
@@ -298,8 +318,8 @@ type customWrap struct{ decor.Decorator }
 
 func (w customWrap) Unwrap() decor.Decorator { return w.Decorator }
 
-func (r *run) mkDecor(bar, side string, idx int, spec DecorSpec) decor.Decorator {
-	p := &probeDecor{r: r, name: fmt.Sprintf("%s%s%d", bar, side, idx), bar: bar, side: side, idx: idx, spec: spec}
+func (r *run) mkDecor(bar, side string, idx, col int, spec DecorSpec) decor.Decorator {
+	p := &probeDecor{r: r, name: fmt.Sprintf("%s%s%d", bar, side, idx), bar: bar, side: side, idx: idx, spec: spec, col: col}
 	p.WC = decor.WC{W: spec.W}
 	if spec.Sync {
 		p.WC.C |= decor.DSyncWidth
@@ -362,7 +382,12 @@ func (r *run) mkFiller(bi *barInfo) mpb.BarFiller {
 			return errFill
 		}
 		r.rec(Event{"ev": "fill", "b": bi.name, "cur": s.Current, "tot": s.Total, "fl": flagsOf(s), "avail": s.AvailableWidth})
-		_, err := fmt.Fprintf(w, "<%s|%d|%d|%s|%d>", bi.name, s.Current, s.Total, flagsOf(s), s.AvailableWidth)
+		tok := fmt.Sprintf("<%s|%d|%d|%s|%d>", bi.name, s.Current, s.Total, flagsOf(s), s.AvailableWidth)
+		if len(tok) > s.AvailableWidth {
+			// a filler may not exceed the width it is given
+			tok = tok[:max(s.AvailableWidth, 0)]
+		}
+		_, err := io.WriteString(w, tok)
 		return err
 	})
 }
@@ -419,6 +444,15 @@ func (r *run) eligible(g *gate) bool {
 	return true
 }
 
+func (r *run) afterWait(c, i int) bool {
+	for _, op := range r.sc.Clients[c][:i] {
+		if op.Op == "wait" {
+			return true
+		}
+	}
+	return false
+}
+
 func (r *run) client(c int) {
 	r.mu.Lock()
 	r.goidCl[goid()] = c
@@ -469,6 +503,9 @@ func (r *run) exec(c, i int, op *Op) {
 		inv["nopop"] = op.NoPop
 		inv["after"] = op.After
 		inv["ext"] = op.Ext
+		inv["npre"] = len(op.Pre)
+		inv["napp"] = len(op.App)
+		inv["trim"] = op.Trim
 		prio := 0
 		if op.Prio != nil {
 			prio = *op.Prio
@@ -485,7 +522,11 @@ func (r *run) exec(c, i int, op *Op) {
 				side = "a"
 			}
 			for k, sp := range specs {
-				groups[si] = append(groups[si], r.mkDecor(op.B, side, k, sp))
+				col := -1
+				if sp.Sync {
+					col = syncs[si]
+				}
+				groups[si] = append(groups[si], r.mkDecor(op.B, side, k, col, sp))
 				if sp.Sync {
 					syncs[si]++
 				}
@@ -532,6 +573,7 @@ func (r *run) exec(c, i int, op *Op) {
 			r.lastCreated = op.B
 			bi.created = true
 			r.mu.Unlock()
+			r.rec(Event{"ev": "created", "b": op.B})
 			return f
 		}))
 		r.mu.Lock()
@@ -550,7 +592,9 @@ func (r *run) exec(c, i int, op *Op) {
 			}
 		}
 		bi.added = true
-		r.addsLeft--
+		if !r.afterWait(c, i) {
+			r.addsLeft--
+		}
 		r.mu.Unlock()
 		ret["err"] = errName(err)
 		r.rec(ret)
@@ -610,10 +654,13 @@ func (r *run) exec(c, i int, op *Op) {
 		}
 	case "refresh":
 		r.rec(inv)
-		select {
-		case r.manual <- time.Now():
-		case <-r.stop:
-		}
+		// fire and forget: once the container is done nobody receives any more
+		go func() {
+			select {
+			case r.manual <- time.Now():
+			case <-r.stop:
+			}
+		}()
 	case "delayend":
 		r.rec(inv)
 		if r.delay != nil {
@@ -790,6 +837,9 @@ func (r *run) scheduler(t *testing.T) (hang string) {
 		if mode == "fair" && r.nFrames()-fairFrom > fairFrames {
 			return "livelock"
 		}
+		if debugSched {
+			fmt.Fprintf(os.Stderr, "step %d mode %s parked %v cands %d frames %d pend %v addsLeft %d\n", step, mode, labels(all), len(cands), r.nFrames(), r.pendingCalls(), r.addsLeft)
+		}
 		var choice *gate
 		tick := false
 		switch mode {
@@ -836,7 +886,7 @@ func (r *run) scheduler(t *testing.T) (hang string) {
 			}
 			tw := 0
 			if auto {
-				tw = 4 * tickw
+				tw = 2 * tickw
 				if len(cands) == 0 {
 					tw = 1
 				}
@@ -910,6 +960,8 @@ func (r *run) drain() {
 }
 
 // exitNow is set by the worker: write the events and terminate the process.
+var debugSched = os.Getenv("VH_DEBUG") != ""
+
 var exitNow = func([]Event) {}
 
 // RunScenario executes one scenario inside a synctest bubble and returns its events.
@@ -923,6 +975,9 @@ func RunScenario(t *testing.T, sc *Scenario) (events []Event, fatal string) {
 	r.clPC = make([]int, len(sc.Clients))
 	for _, cl := range sc.Clients {
 		for _, op := range cl {
+			if op.Op == "wait" {
+				break // calls after a Wait are late calls; Wait does not have to wait for them
+			}
 			if op.Op == "add" {
 				r.addsLeft++
 			}
